@@ -116,7 +116,7 @@ Lemma check_step_swap kd st now ev :
   check_step kd st OSwap now ev =
   check_common kd st OSwap now ev &&
   (if has_swap kd
-   then nodes_eqb (ob_a now) (ob_b (ss_obs st)) && nodes_eqb (ob_b now) (ob_a (ss_obs st)) && match ev with [] => true | _ => false end
+   then nodes_eqb (ob_a now) (ob_b (ss_obs st)) && nodes_eqb (ob_b now) (ob_a (ss_obs st))
    else nodes_eqb (ob_a now) (ob_a (ss_obs st)) && nodes_eqb (ob_b now) (ob_b (ss_obs st))).
 Proof. reflexivity. Qed.
 
